@@ -144,6 +144,17 @@ class UnitFile:
                         sig=sig, prefix=prefix, suffix=suffix,
                         qual="%s[%s]" % (within, pattern))
 
+    def add_range_fn(self, rel, within, start_pattern, end_pattern, sig, contract=None, rules=(), subst=(),
+                     impl=None, nth=0, name=None, prefix="", suffix="", exclusive=False):
+        """A statement range (extract.find_range) wrapped into a generated function."""
+        src = self.source(rel)
+        host = src.find_fn(within, impl=impl)
+        blk = src.find_range(host, start_pattern, end_pattern, nth=nth, exclusive=exclusive)
+        gname = name or re.search(r"fn\s+(\w+)", sig).group(1)
+        self._emit_item(blk, rel, gname, contract, rules, subst, kind="block",
+                        sig=sig, prefix=prefix, suffix=suffix,
+                        qual="%s[%s .. %s]" % (within, start_pattern, end_pattern))
+
     def add_item_fn(self, rel, item, gname, sig, contract=None, rules=(), subst=(), prefix="",
                     suffix="", qual=None):
         """Like add_block_fn, for a block the unit located itself (an extract.Item)."""
@@ -498,6 +509,31 @@ class UnitFile:
                 self.tags.append(tg)
             return True
         return False
+
+    def stub_auto_added(self, name):
+        """An auto-added helper that does not compile in the extracted setting (it uses types or
+        constants outside the unit): keep its signature, replace its body by an external_body stub
+        whose result is arbitrary.  Only for helpers without `&mut` parameters (a pure helper with an
+        arbitrary result over-approximates every behaviour except panics and non-termination, which
+        are listed as assumptions).  Returns True if done."""
+        idx = [k for k, t in enumerate(self.tags) if t is not None and t.fn == name and t.kind == "repo"]
+        if not idx or name not in getattr(self, "auto_added", []):
+            return False
+        a, b = idx[0], idx[-1]
+        sig_end = None
+        for k in range(a, b + 1):
+            if self.lines[k].rstrip().endswith("{"):
+                sig_end = k
+                break
+        if sig_end is None or "&mut" in " ".join(self.lines[a:sig_end + 1]):
+            return False
+        for k in range(sig_end + 1, b + 1):
+            self.lines[k] = ""
+        self.lines[b] = "    unimplemented!() }"
+        self.lines.insert(a, "#[verifier::external_body]")
+        self.tags.insert(a, self.tags[a])
+        self.auto_stubbed = getattr(self, "auto_stubbed", []) + [name]
+        return True
 
     # ------------------------------------------------------------------
     def text(self):
